@@ -86,6 +86,18 @@ def _run(cmd, timeout=None, mem_gb=None, cwd=None, stdout=None):
     return p.returncode, out, err, to, time.time() - t0
 
 
+_lock_fd = None
+
+
+def lock_work():
+    """serialise vcheck runs that share one work directory"""
+    global _lock_fd
+    import fcntl
+    os.makedirs(WORK, exist_ok=True)
+    _lock_fd = open(os.path.join(WORK, "lock"), "w")
+    fcntl.flock(_lock_fd, fcntl.LOCK_EX)
+
+
 def codegen(filters, stubbing=True, log=None):
     """Build /repo + harness crate with the Kani compiler; return {harness: info}."""
     os.makedirs(TARGET, exist_ok=True)
@@ -359,6 +371,22 @@ def run_harnesses(harnesses, found, jobs=8, progress=None):
     return results
 
 
+def _quiet(out):
+    """drop rustc warning blocks from a build log"""
+    keep, skip = [], False
+    for ln in (out or "").splitlines():
+        if ln.startswith("warning"):
+            skip = True
+            continue
+        if skip and (ln.startswith((" ", "\t")) or ln.strip() == "" or re.match(r"^\d* *\|", ln)):
+            continue
+        skip = False
+        if ln.startswith("Check ") or ln.startswith("\t - "):
+            continue
+        keep.append(ln)
+    return "\n".join(keep)
+
+
 # ---------------------------------------------------------------- replay
 _TEST_RE = re.compile(r"(#\[test\]\s*\nfn kani_concrete_playback_[\s\S]*?\n}\n)")
 
@@ -372,18 +400,19 @@ def playback(h, info, resolved_labels_cmd, outdir):
     os.makedirs(outdir, exist_ok=True)
     scratch = tempfile.mkdtemp(prefix="vreplay.", dir=os.environ.get("VERIF_SCRATCH", "/tmp"))
     res = {"reproduced_dev": None, "reproduced_release": None, "test_path": None, "log": ""}
+    _keep = res
     try:
         crate = os.path.join(scratch, "kani-harness")
         shutil.copytree(HARNESS_CRATE, crate, ignore=shutil.ignore_patterns("target"))
         os.symlink(os.path.join(VERIF, "vendor"), os.path.join(scratch, "vendor"))
         cmd = ["cargo", "kani", "-Z", "stubbing", "-Z", "concrete-playback", "--concrete-playback=inplace",
-               "--harness", h.name, "--exact", "--target-dir", TARGET]
+               "--harness", info["pretty"], "--exact", "--target-dir", TARGET]
         unwind = h.unwind if h.unwind is not None else info["unwind"]
         extra = []
         if resolved_labels_cmd:
             extra = ["-Z", "unstable-options", "--cbmc-args", "--unwindset", resolved_labels_cmd]
         rc, out, _, to, _ = _run(cmd + extra, timeout=max(900, 3 * h.timeout), cwd=crate)
-        res["log"] += (out or "")[-4000:]
+        res["log"] += _quiet(out)[-6000:]
         # find the injected test
         src = None
         for p in glob.glob(os.path.join(crate, "src", "*.rs")):
@@ -403,16 +432,63 @@ def playback(h, info, resolved_labels_cmd, outdir):
             f.write("// replay: vcheck.py --replay %s\n" % test_path)
             f.write(mm.group(1) if mm else text)
         res["test_path"] = test_path
-        for prof, key in ((["--"], "reproduced_dev"), (["--release", "--"], "reproduced_release")):
-            cmd = ["cargo", "kani", "playback", "-Z", "concrete-playback"] + prof[:-1] + ["--", tname]
-            rc, out, _, to, _ = _run(cmd, timeout=1800, cwd=crate)
-            res["log"] += "\n$ %s\n%s" % (" ".join(cmd), (out or "")[-3000:])
-            if to:
-                res[key] = None
-            else:
-                failed = bool(re.search(r"test result: FAILED|panicked at", out or ""))
-                ran = bool(re.search(r"running 1 test", out or ""))
-                res[key] = failed if ran else None
+        r2 = _run_playback_tests(crate, tname)
+        res["log"] += r2.pop("log")
+        res.update(r2)
         return res
+    finally:
+        shutil.rmtree(scratch, ignore_errors=True)
+
+
+RELEASE_ENV = {
+    # `cargo kani playback` has no --release: emulate the release profile's
+    # semantics (optimised, no debug assertions, no overflow checks) in `dev`
+    "CARGO_PROFILE_DEV_OPT_LEVEL": "3",
+    "CARGO_PROFILE_DEV_DEBUG_ASSERTIONS": "false",
+    "CARGO_PROFILE_DEV_OVERFLOW_CHECKS": "false",
+}
+
+
+def _run_playback_tests(crate, tname):
+    res = {"log": ""}
+    for envx, key in (({}, "reproduced_dev"), (RELEASE_ENV, "reproduced_release")):
+        cmd = ["cargo", "kani", "playback", "-Z", "concrete-playback", "--", tname]
+        old = dict(ENV)
+        ENV.update(envx)
+        try:
+            rc, out, _, to, _ = _run(cmd, timeout=2400, cwd=crate)
+        finally:
+            ENV.clear()
+            ENV.update(old)
+        res["log"] += "\n$ %s %s\n%s" % (" ".join("%s=%s" % kv for kv in envx.items()), " ".join(cmd), _quiet(out)[-3000:])
+        if to:
+            res[key] = None
+        else:
+            failed = bool(re.search(r"test result: FAILED|panicked at", out or ""))
+            ran = bool(re.search(r"running 1 test", out or ""))
+            res[key] = failed if ran else None
+    return res
+
+
+def replay_file(path):
+    """`vcheck.py <prop> --replay <file>`: re-inject a saved playback test into a
+    scratch copy of the harness crate and run it natively against /repo."""
+    text = open(path).read()
+    m = re.search(r"\(module (\w+\.rs)\)", text)
+    t = re.search(r"fn (kani_concrete_playback_\w+)", text)
+    if not m or not t:
+        print("not a playback file: %s" % path)
+        return 2
+    scratch = tempfile.mkdtemp(prefix="vreplay.", dir=os.environ.get("VERIF_SCRATCH", "/tmp"))
+    try:
+        crate = os.path.join(scratch, "kani-harness")
+        shutil.copytree(HARNESS_CRATE, crate, ignore=shutil.ignore_patterns("target"))
+        os.symlink(os.path.join(VERIF, "vendor"), os.path.join(scratch, "vendor"))
+        with open(os.path.join(crate, "src", m.group(1)), "a") as f:
+            f.write("\n" + text[text.index("#[test]"):])
+        r = _run_playback_tests(crate, t.group(1))
+        print(r["log"][-3000:])
+        print("reproduced: dev=%s release-like=%s" % (r["reproduced_dev"], r["reproduced_release"]))
+        return 1 if (r["reproduced_dev"] or r["reproduced_release"]) else 0
     finally:
         shutil.rmtree(scratch, ignore_errors=True)
